@@ -91,12 +91,12 @@ impl ToTokens for Dependency {
     fn to_tokens(&self, tokens: &mut TokenStream) {
         tokens.extend(match self {
             Dependency::Transitive { crate_rename, ty } => {
-                quote![<#ty as #crate_rename::TS>::visit_dependencies(v)]
+                quote![<#ty as #crate_rename::TS>::visit_dependencies(__ts_rs_visitor)]
             }
             Dependency::Generics { crate_rename, ty } => {
-                quote![<#ty as #crate_rename::TS>::visit_generics(v)]
+                quote![<#ty as #crate_rename::TS>::visit_generics(__ts_rs_visitor)]
             }
-            Dependency::Type(ty) => quote![v.visit::<#ty>()],
+            Dependency::Type(ty) => quote![__ts_rs_visitor.visit::<#ty>()],
         });
     }
 }
